@@ -501,8 +501,10 @@ class ConcurrentVector {
    * @return The iterator at the inserted position.
    **/
   iterator insert(const_iterator pos, const T& value) {
+    // insertPartial leaves a live (default-constructed or moved-from) element at pos: assign to it
+    // rather than constructing a second object on top of it.
     auto it = insertPartial(pos);
-    new (&*it) T(value);
+    *it = value;
     return it;
   }
 
@@ -514,7 +516,7 @@ class ConcurrentVector {
    **/
   iterator insert(const_iterator pos, T&& value) {
     auto it = insertPartial(pos);
-    new (&*it) T(std::move(value));
+    *it = std::move(value);
     return it;
   }
 
@@ -573,16 +575,13 @@ class ConcurrentVector {
     if (e == pos) {
       return e;
     }
-    size_.fetch_sub(1, std::memory_order_relaxed);
-    --e;
-    if (e == pos) {
-      e->~T();
-      return e;
-    }
-    ++e;
     auto it = begin();
     it += (pos - it);
-    return std::move(pos + 1, const_iterator(e), it);
+    // Shift the tail down by one, then destroy the vacated last element.
+    auto newEnd = std::move(pos + 1, const_iterator(e), it);
+    newEnd->~T();
+    size_.fetch_sub(1, std::memory_order_relaxed);
+    return it;
   }
 
   /**
@@ -604,15 +603,14 @@ class ConcurrentVector {
 
     auto e_it = std::move(last, cend(), it);
 
-    if (e_it < last) {
-      // remove any values that were not already moved into
-      do {
-        --last;
-        last->~T();
-      } while (e_it != last);
+    // Destroy the vacated tail [e_it, end()): every element behind the new end, whether it was
+    // moved from or not.
+    for (auto d = end(); d != e_it;) {
+      --d;
+      d->~T();
     }
     size_.fetch_sub(len, std::memory_order_relaxed);
-    return e_it;
+    return it;
   }
 
   /**
@@ -1096,6 +1094,12 @@ class ConcurrentVector {
   }
 
   iterator insertPartial(const_iterator pos, size_t len) {
+    if (len == 0) {
+      // Nothing to open up; moving the tail onto itself would self-move-assign every element.
+      auto it = begin();
+      it += (pos - it);
+      return it;
+    }
     auto e = end();
     auto index = size_.fetch_add(len, std::memory_order_relaxed);
     auto binfo = bucketAndSubIndex(index);
